@@ -401,7 +401,7 @@ Qed.
 Lemma G_close' c s ph fr ec' L l' h' sF cB d :
   Sim c s ph -> sc_sl_done c = false -> seq_ok c fr ec' -> N.odd (sf_sid fr) = true ->
   base c fr L l' h' -> st_id sF = sf_sid fr -> kfin c ec' l' h' L cB d ->
-  (sc_discardID cB = sc_discardID c \/ sc_discardID cB = sf_sid fr) ->
+  ((st_weReset sF = true /\ st_headersFinished sF = false) \/ sc_discardID cB = sc_discardID c \/ sc_discardID cB = sf_sid fr) ->
   (ec' <> 0 -> sc_discardID cB = sf_sid fr \/ (st_weReset sF = true /\ st_headersFinished sF = false)) ->
   feed c (IIn (RFrame fr)) =
     fst (if sc_closing c && can_close_after_goaway (close_stream (put cB sF) sF) then brk (close_stream (put cB sF) sF) else cont (close_stream (put cB sF) sF)) ->
@@ -444,7 +444,9 @@ Proof.
     + sc_rw. exact K9.
     + sc_rw. exact K10.
     + sc_rw. exact K11.
-    + fold c3. rewrite DI. destruct (_ && _ && _)%bool; [right; reflexivity | exact Kd].
+    + fold c3. rewrite DI. destruct Kd as [[X Y]|Kd].
+      * rewrite X, Y. cbn [negb andb]. destruct (sc_discardID cB =? sf_sid fr) eqn:Q; cbn [negb]; right; [apply N.eqb_eq in Q; exact Q | reflexivity].
+      * destruct (_ && _ && _)%bool; [right; reflexivity | exact Kd].
     + fold c3. rewrite DI. intro Hne. destruct (Kd2 Hne) as [X|[X Y]].
       * rewrite X, N.eqb_refl, andb_false_r. reflexivity.
       * rewrite X, Y. cbn [negb andb]. destruct (sc_discardID cB =? sf_sid fr) eqn:Q; cbn [negb]; [apply N.eqb_eq in Q; exact Q | reflexivity].
@@ -566,6 +568,441 @@ Proof.
     revert K. destruct (sf_kind fr); intro K; cbn [abs_kind]; try exact P; congruence.
   - left. unfold RS.by_state. change (RS.f_sid (abs_frame fr)) with (sf_sid fr). rewrite X. unfold abs_frame. cbn [RS.f_kind RS.f_self]. rewrite KH. cbn [abs_kind].
     rewrite <- N.negb_odd, O. cbn [negb]. rewrite !existsb_app, P. rewrite orb_true_r. reflexivity.
+Qed.
+
+Lemma sstate_eqb_eq a b : sstate_eqb a b = true <-> a = b.
+Proof. destruct a, b; cbn; split; intro H; try reflexivity; try discriminate. Qed.
+Lemma sstate_eqb_neq a b : sstate_eqb a b = false <-> a <> b.
+Proof. destruct a, b; cbn; split; intro H; try reflexivity; try discriminate; try congruence. Qed.
+
+Lemma classify_nil sid : classify sid [] = RS.Process.
+Proof. unfold classify. cbn. destruct (sid =? 0); reflexivity. Qed.
+
+Lemma classify_es sid ch : classify sid [OData sid true ch] = RS.Process.
+Proof. unfold classify. cbn. destruct (sid =? 0); reflexivity. Qed.
+
+Lemma handle_state_range fr s : st_state s = SIdle \/ st_state s = SOpen \/ st_state s = SHalfClosed ->
+  (st_state (handle_state fr s) = SClosed -> sf_kind fr = KRst) /\
+  (st_state (handle_state fr s) = SIdle \/ st_state (handle_state fr s) = SOpen \/ st_state (handle_state fr s) = SHalfClosed \/
+   st_state (handle_state fr s) = SClosed) /\
+  (st_state s = SHalfClosed -> st_state (handle_state fr s) = SHalfClosed \/ st_state (handle_state fr s) = SClosed).
+Proof.
+  unfold handle_state. destruct s. cbn. intros [H|[H|H]]; subst; destruct (sf_kind fr); cbn;
+    try destruct (flag_has (sf_flags fr) FL_ES); cbn; repeat split; auto; try discriminate; intro X; discriminate.
+Qed.
+
+Lemma kfin_note c ec' l' h' L cA dq o : kfin c ec' l' h' L cA dq -> kfin c ec' l' h' L (note cA o) (o :: dq).
+Proof.
+  unfold kfin, note. sc_cbn. intros (K1 & K2 & K3 & K4 & K5 & K6 & K7 & K8 & K9 & K10 & K11 & K12). rewrite K12.
+  repeat split; assumption.
+Qed.
+
+Lemma kfin_sd c ec' l' h' L cA dq c1 ds : kfin c ec' l' h' L cA dq -> sd hstate cA c1 ds -> kfin c ec' l' h' L c1 (ds ++ dq).
+Proof.
+  unfold kfin, sd. intros (K1 & K2 & K3 & K4 & K5 & K6 & K7 & K8 & K9 & K10 & K11 & K12) ->. sc_cbn. rewrite K12, app_assoc.
+  repeat split; assumption.
+Qed.
+
+Lemma handle_state_not_idle fr s : (st_state s = SIdle -> sf_kind fr = KHeaders) -> st_state (handle_state fr s) <> SIdle.
+Proof.
+  unfold handle_state. destruct s. cbn. intro H.
+  destruct (sf_kind fr) eqn:K; cbn; destruct st_state; cbn; try discriminate;
+    try (specialize (H eq_refl); discriminate); destruct (flag_has (sf_flags fr) FL_ES); cbn; discriminate.
+Qed.
+
+Lemma after_ok c s ph fr ec' c2 l' h' cA sX :
+  Sim c s ph -> sc_sl_done c = false -> seq_ok c fr ec' -> N.odd (sf_sid fr) = true ->
+  base c fr (sc_strms c2) l' h' -> kctx c ec' l' h' c2 -> hf_eff c2 cA -> sc_discardID cA = sc_discardID c ->
+  st_id sX = sf_sid fr ->
+  ((st_state sX = SIdle /\ sf_kind fr = KHeaders) \/ st_state sX = SOpen \/ st_state sX = SHalfClosed) ->
+  RS.st_of s (sf_sid fr) = abs_st (st_state sX) ->
+  (st_state sX = SIdle -> h' = sf_sid fr /\ sc_highestID c < sf_sid fr) -> (st_state sX <> SIdle -> h' = sc_highestID c) ->
+  st_weReset sX = false ->
+  (st_responded sX = true \/ st_handlerRunning sX = true -> st_state sX = SHalfClosed /\ st_headersFinished sX = true) ->
+  send_ok sX ->
+  RS.verdicts s (RS.Frame (abs_frame fr)) = RS.on_stream s (abs_frame fr) ->
+  RS.may_process s (RS.Frame (abs_frame fr)) = true ->
+  (st_headersFinished sX = false -> ec' = sf_sid fr) -> (ec' <> 0 -> st_headersFinished sX = false) ->
+  (st_state (handle_state fr sX) <> SClosed -> RS.request_step (ph (sf_sid fr)) (abs_frame fr) = phase_of (handle_state fr sX)) ->
+  (sf_kind fr = KRst -> st_responded sX = true -> st_handlerRunning sX = false -> has_more_to_send sX = true ->
+   known_deviation hstate c s (RFrame fr) = true) ->
+  feed c (IIn (RFrame fr)) = fst (after_frame cfg cA sX fr (sc_closing c)) ->
+  G c s ph (RFrame fr) (feed c (IIn (RFrame fr))).
+Proof.
+  intros HS Hsl SQ Od HB KC HE Hdi Hid Hstate Hx Hh1 Hh2 Hwr Hresp Hsend V Hmp Hf1 Hf2 Hph Hdev E.
+  pose proof (S_wf _ _ _ _ HS) as W. pose proof (S_aux _ _ _ _ HS) as [AT AH].
+  pose proof (Zn_of_odd _ Od) as Zn.
+  destruct (kfin_of c ec' l' h' c2 cA Hsl KC HE) as (dq & KF & Qq & Qnd).
+  pose proof (quiet_no_goaway dq Qq) as Qng.
+  assert (WrA : wr hstate cA).
+  { destruct KF as (_ & _ & _ & _ & _ & _ & K7 & _ & K9 & _). split; [exact K9 | rewrite K7; apply (A_wl _ _ AT)]. }
+  set (s1 := handle_state fr sX) in *.
+  assert (S1 : s1 = set_state sX (st_state s1)) by apply handle_state_set.
+  assert (Rcv : abs_st (st_state s1) = RS.receive (RS.st_of s (sf_sid fr)) (abs_frame fr)).
+  { rewrite Hx. apply handle_state_receive. destruct Hstate as [[A B]|[A|A]]; auto. left. split; [exact A | congruence]. }
+  assert (S1id : st_id s1 = sf_sid fr) by (rewrite S1; exact Hid).
+  assert (S1fin : st_headersFinished s1 = st_headersFinished sX) by (rewrite S1; reflexivity).
+  assert (S1resp : st_responded s1 = st_responded sX) by (rewrite S1; reflexivity).
+  assert (S1run : st_handlerRunning s1 = st_handlerRunning sX) by (rewrite S1; reflexivity).
+  assert (S1wr : st_weReset s1 = false) by (rewrite S1; exact Hwr).
+  assert (S1more : has_more_to_send s1 = has_more_to_send sX) by (rewrite S1; reflexivity).
+  assert (S1send : send_ok s1) by (rewrite S1; exact Hsend).
+  assert (FS : RS.f_sid (abs_frame fr) = sf_sid fr) by reflexivity.
+  (* the highest id after the frame took effect or was reset *)
+  assert (HI : forall r, conn_err r = false -> r <> RS.Ignore -> next_st RS.Idle (abs_frame fr) r <> RS.Idle \/ st_state sX <> SIdle ->
+               RS.highest (RS.spec_next s (RS.Frame (abs_frame fr)) r) = h').
+  { intros r CE NI NX. apply highest_next_known; try assumption.
+    - rewrite FS, Hx. intro X. assert (SI : st_state sX = SIdle) by (destruct (st_state sX); try discriminate; reflexivity).
+      destruct (Hh1 SI) as [A B]. split; [destruct NX; [assumption | contradiction]|]. split; [exact A|]. rewrite (S_hi _ _ _ _ HS). exact B.
+    - rewrite FS, Hx. intro X. rewrite (S_hi _ _ _ _ HS). apply Hh2. intro SI. rewrite SI in X. apply X. reflexivity. }
+  assert (NotIdle1 : st_state s1 <> SIdle).
+  { apply handle_state_not_idle. intro SI. destruct Hstate as [[A B]|[A|A]]; [exact B | congruence | congruence]. }
+  unfold after_frame in E. fold s1 in E. cbv zeta in E.
+  destruct (sstate_eqb (st_state s1) SHalfClosed && st_headersFinished s1 && negb (st_responded s1))%bool eqn:C1.
+  - (* the request is complete *)
+    apply andb_true_iff in C1. destruct C1 as [C1 C1r]. apply andb_true_iff in C1. destruct C1 as [C1s C1f].
+    apply sstate_eqb_eq in C1s. apply negb_true_iff in C1r.
+    assert (Xhc : RS.receive (RS.st_of s (sf_sid fr)) (abs_frame fr) = RS.HalfClosedRemote) by (rewrite <- Rcv, C1s; reflexivity).
+    assert (NR : sf_kind fr <> KRst).
+    { intro K. unfold s1, handle_state in C1s. rewrite K in C1s. cbn [fkind_eqb] in C1s. cbn in C1s. discriminate. }
+    assert (Xst : RS.st_of s (sf_sid fr) = RS.Open \/ RS.st_of s (sf_sid fr) = RS.HalfClosedRemote \/
+                  (RS.st_of s (sf_sid fr) = RS.Idle /\ sf_kind fr = KHeaders /\ N.odd (sf_sid fr) = true)).
+    { rewrite Hx. destruct Hstate as [[A B]|[A|A]]; rewrite A; cbn [abs_st]; auto. }
+    set (s2 := set_flags s1 true (st_handlerRunning s1) (st_abandoned s1)) in *.
+    destruct (st_hasCL s2 && negb (st_recvBody s2 =? st_contentLength s2)%Z)%bool eqn:CL.
+    + (* content-length does not match: RST_STREAM(PROTOCOL_ERROR) *)
+      set (sF := set_state (set_weReset s2) SClosed) in *.
+      replace (sstate_eqb (st_state sF) SClosed) with true in E by reflexivity.
+      set (d := ORst (sf_sid fr) c_ProtocolError :: dq).
+      assert (Fd : filter noisy d = [ORst (sf_sid fr) c_ProtocolError]) by (unfold d; cbn [filter noisy strip_late]; rewrite Qq; reflexivity).
+      assert (CLs : classify (sf_sid fr) (rev (filter noisy d)) = RS.StreamErr c_ProtocolError) by (rewrite Fd; apply classify_rst, Zn).
+      destruct (spec_one s (abs_frame fr) (RS.StreamErr c_ProtocolError) d _ (RS.SentRst (sf_sid fr)) W Od eq_refl Fd eq_refl eq_refl) as (Q1 & Q2 & Q3).
+      change (RS.f_sid (abs_frame fr)) with (sf_sid fr) in Q1.
+      apply (G_close' c s ph fr ec' (sc_strms c2) l' h' sF (write_reset cA (sf_sid fr) c_ProtocolError) d HS Hsl SQ Od HB); try assumption;
+        rewrite ?CLs; cbn [resolve].
+      * unfold write_reset. rewrite (emit_wr hstate cA _ WrA). apply kfin_note, KF.
+      * right. left. unfold write_reset. sc_rw. exact Hdi.
+      * intro Hne. right. split; [reflexivity|]. unfold sF, s2. cbn. rewrite S1fin. apply Hf2, Hne.
+      * replace (st_id s2) with (sf_sid fr) in E by (symmetry; exact S1id). exact E.
+      * intros o [<-|H]; [reflexivity | apply Qng, H].
+      * left. apply policy_allowed; auto.
+      * apply (outs_on_one _ d _ Fd). intros so [<-|[]]. left. reflexivity.
+      * rewrite Q1. cbn [next_st].
+        destruct Xst as [X|[X|(X & KH & _)]]; rewrite X; unfold RS.reset, abs_frame; cbn [RS.f_kind]; rewrite ?KH; cbn [abs_kind sent_st];
+          try reflexivity; destruct (abs_kind (sf_kind fr)); reflexivity.
+      * exact Q2.
+      * rewrite Q3. apply HI; [reflexivity | discriminate|]. 
+        destruct Xst as [X|[X|(X & KH & _)]].
+        -- right. intro SI. rewrite Hx, SI in X. discriminate.
+        -- right. intro SI. rewrite Hx, SI in X. discriminate.
+        -- left. cbn [next_st]. unfold RS.reset, abs_frame. cbn [RS.f_kind]. rewrite KH. discriminate.
+      * intros sid rq [H|H]; [discriminate | exact (Qnd sid rq H)].
+    + (* dispatch *)
+      set (sF := set_flags s2 true true (st_abandoned s2)) in *.
+      replace (sstate_eqb (st_state sF) SClosed) with false in E by (unfold sF, s2; cbn; rewrite C1s; reflexivity).
+      set (d := ODispatch (st_id s2) (st_req s2) :: dq).
+      assert (Fd : filter noisy d = []) by (unfold d; cbn [filter noisy strip_late]; exact Qq).
+      assert (CLs : classify (sf_sid fr) (rev (filter noisy d)) = RS.Process) by (rewrite Fd; apply classify_nil).
+      destruct (spec_process_quiet s (abs_frame fr) d W Od Fd) as (Q1 & Q2).
+      change (RS.f_sid (abs_frame fr)) with (sf_sid fr) in Q1.
+      apply (G_keep' c s ph fr ec' (sc_strms c2) l' h' sF (note cA (ODispatch (st_id s2) (st_req s2))) d HS Hsl SQ Od HB); try assumption;
+        rewrite ?CLs; cbn [resolve]; rewrite ?Hmp.
+      * apply kfin_note, KF.
+      * intros o [<-|H]; [reflexivity | apply Qng, H].
+      * unfold strm_ok, sF, s2. cbn. rewrite C1s. repeat split; auto.
+      * unfold sF, s2. cbn. rewrite C1f. discriminate.
+      * unfold sF, s2. cbn. rewrite C1f. intro Hne. exfalso. rewrite S1fin in C1f. rewrite (Hf2 Hne) in C1f. discriminate.
+      * left. apply allowed_table. exact Hmp.
+      * apply outs_on_nil, Fd.
+      * rewrite Q1. rewrite Xhc. unfold sF, s2. cbn. rewrite C1s. reflexivity.
+      * exact Q2.
+      * rewrite highest_quiet by exact Fd. apply HI; [reflexivity | discriminate|].
+        destruct Xst as [X|[X|(X & KH & _)]].
+        -- right. intro SI. rewrite Hx, SI in X. discriminate.
+        -- right. intro SI. rewrite Hx, SI in X. discriminate.
+        -- left. cbn [next_st]. intro Y. rewrite X, Y in Xhc. discriminate.
+      * rewrite Hph by (rewrite C1s; discriminate). unfold phase_of, sF, s2. cbn. reflexivity.
+      * intros sid rq [H|H]; [|exfalso; exact (Qnd sid rq H)]. inversion H; subst. split; [exact S1id|].
+        unfold phase_of, sF, s2. cbn. rewrite C1s, C1f. reflexivity.
+  - (* the request is not complete, or is being answered already *)
+    assert (Hstate' : st_state sX = SIdle \/ st_state sX = SOpen \/ st_state sX = SHalfClosed) by (destruct Hstate as [[A _]|[A|A]]; auto).
+    destruct (handle_state_range fr sX Hstate') as (RgC & Rg & RgH). fold s1 in RgC, Rg, RgH.
+    assert (HIgen : forall r, conn_err r = false -> r <> RS.Ignore -> st_state sX <> SIdle \/ next_st RS.Idle (abs_frame fr) r <> RS.Idle ->
+              RS.highest (RS.spec_next s (RS.Frame (abs_frame fr)) r) = h') by (intros r A B [X|X]; apply HI; auto).
+    assert (ProcIdle : st_state sX <> SIdle \/ next_st RS.Idle (abs_frame fr) RS.Process <> RS.Idle).
+    { destruct Hstate as [[A B]|[A|A]]; [right | left; congruence | left; congruence].
+      cbn [next_st]. unfold RS.receive, abs_frame. cbn [RS.f_kind]. rewrite B. cbn [abs_kind]. destruct (RS.f_es _); discriminate. }
+    destruct (st_responded s1 && negb (st_handlerRunning s1) && has_more_to_send s1)%bool eqn:C2.
+    + (* queued response data goes out *)
+      apply andb_true_iff in C2. destruct C2 as [C2 C2m]. apply andb_true_iff in C2. destruct C2 as [C2r C2h]. apply negb_true_iff in C2h.
+      destruct (Hresp (or_introl (eq_trans (eq_sym S1resp) C2r))) as [SXhc SXfin].
+      assert (Xhcr : RS.st_of s (sf_sid fr) = RS.HalfClosedRemote) by (rewrite Hx, SXhc; reflexivity).
+      assert (EC0 : ec' = 0) by (destruct (N.eq_dec ec' 0) as [Z|Z]; [exact Z | rewrite (Hf2 Z) in SXfin; discriminate]).
+      destruct (send_data cA s1) as [[c1' s2'] fin] eqn:SD.
+      destruct (send_data_spec hstate cA s1 c1' s2' fin WrA C2m S1send SD) as (ds & SDd & FD & Sid & Sst & Sfin & Sresp & Srun & Sorig & Sout).
+      destruct (data_or_rst_facts ds FD) as (Dnd & Dng & _).
+      pose proof (kfin_sd c ec' l' h' _ cA dq c1' ds KF SDd) as KF1.
+      assert (DI1 : sc_discardID c1' = sc_discardID c) by (unfold sd in SDd; rewrite SDd; sc_cbn; exact Hdi).
+      assert (Ng1 : forall o, In o (ds ++ dq) -> is_goaway o = None).
+      { intros o H. apply in_app_or in H. destruct H as [H|H]; [apply Dng, H | apply Qng, H]. }
+      assert (Nd1 : forall sid rq, ~ In (ODispatch sid rq) (ds ++ dq)).
+      { intros sid rq H. apply in_app_or in H. destruct H as [H|H]; [exact (Dnd sid rq H) | exact (Qnd sid rq H)]. }
+      destruct fin.
+      * (* the response is over: the stream is closed *)
+        set (sF := set_state s2' SClosed) in *.
+        replace (sstate_eqb (st_state sF) SClosed) with true in E by reflexivity.
+        assert (IdF : st_id sF = sf_sid fr) by (unfold sF; cbn; rewrite Sid; exact S1id).
+        destruct Sout as [(chunk & Fn & Wr) | (Fn & Wr)].
+        -- (* END_STREAM *)
+           assert (Fd : filter noisy (ds ++ dq) = [OData (sf_sid fr) true chunk]) by (rewrite filter_app, Qq, app_nil_r, Fn, S1id; reflexivity).
+           assert (CLs : classify (sf_sid fr) (rev (filter noisy (ds ++ dq))) = RS.Process) by (rewrite Fd; apply classify_es).
+           destruct (spec_one s (abs_frame fr) RS.Process (ds ++ dq) _ (RS.SentEndStream (sf_sid fr)) W Od eq_refl Fd eq_refl eq_refl) as (Q1 & Q2 & Q3).
+           change (RS.f_sid (abs_frame fr)) with (sf_sid fr) in Q1.
+           apply (G_close' c s ph fr ec' (sc_strms c2) l' h' sF c1' (ds ++ dq) HS Hsl SQ Od HB IdF KF1); try assumption;
+             rewrite ?CLs; cbn [resolve]; rewrite ?Hmp.
+           ++ right. left. exact DI1.
+           ++ intro Hne. exfalso. apply Hne, EC0.
+           ++ left. apply allowed_table. exact Hmp.
+           ++ apply (outs_on_one _ _ _ Fd). intros so [<-|[]]. left. reflexivity.
+           ++ rewrite Q1. cbn [next_st]. rewrite Xhcr. unfold sF. cbn. rewrite Wr, S1wr.
+              unfold RS.receive. destruct (sf_kind fr); cbn; auto.
+           ++ exact Q2.
+           ++ rewrite Q3. apply HIgen; [reflexivity | discriminate | exact ProcIdle].
+        -- (* the body reader failed: RST_STREAM(INTERNAL_ERROR) *)
+           assert (Fd : filter noisy (ds ++ dq) = [ORst (sf_sid fr) c_InternalError]) by (rewrite filter_app, Qq, app_nil_r, Fn, S1id; reflexivity).
+           assert (CLs : classify (sf_sid fr) (rev (filter noisy (ds ++ dq))) = RS.StreamErr c_InternalError) by (rewrite Fd; apply classify_rst, Zn).
+           destruct (spec_one s (abs_frame fr) (RS.StreamErr c_InternalError) (ds ++ dq) _ (RS.SentRst (sf_sid fr)) W Od eq_refl Fd eq_refl eq_refl) as (Q1 & Q2 & Q3).
+           change (RS.f_sid (abs_frame fr)) with (sf_sid fr) in Q1.
+           apply (G_close' c s ph fr ec' (sc_strms c2) l' h' sF c1' (ds ++ dq) HS Hsl SQ Od HB IdF KF1); try assumption;
+             rewrite ?CLs; cbn [resolve].
+           ++ right. left. exact DI1.
+           ++ intro Hne. exfalso. apply Hne, EC0.
+           ++ destruct (fkind_eqb (sf_kind fr) KRst) eqn:KR.
+              ** right. apply fkind_eqb_eq in KR. apply Hdev; congruence.
+              ** left. apply policy_allowed; auto. apply fkind_eqb_neq, KR.
+           ++ apply (outs_on_one _ _ _ Fd). intros so [<-|[]]. left. reflexivity.
+           ++ rewrite Q1. cbn [next_st]. rewrite Xhcr. unfold sF. cbn. rewrite Wr.
+              unfold RS.reset, abs_frame. cbn. destruct (sf_kind fr); reflexivity.
+           ++ exact Q2.
+           ++ rewrite Q3. apply HIgen; [reflexivity | discriminate | left; congruence].
+      * (* more to send later *)
+        destruct Sout as (Fn & Wr & Sok).
+        assert (St2 : st_state s2' = SHalfClosed \/ st_state s2' = SClosed) by (rewrite Sst; apply RgH, SXhc).
+        destruct (sstate_eqb (st_state s2') SClosed) eqn:CC.
+        -- (* the frame was RST_STREAM *)
+           apply sstate_eqb_eq in CC. assert (KR : sf_kind fr = KRst) by (apply RgC; rewrite <- Sst; exact CC).
+           assert (Fd : filter noisy (ds ++ dq) = []) by (rewrite filter_app, Qq, Fn; reflexivity).
+           assert (CLs : classify (sf_sid fr) (rev (filter noisy (ds ++ dq))) = RS.Process) by (rewrite Fd; apply classify_nil).
+           destruct (spec_process_quiet s (abs_frame fr) (ds ++ dq) W Od Fd) as (Q1 & Q2).
+           change (RS.f_sid (abs_frame fr)) with (sf_sid fr) in Q1.
+           apply (G_close' c s ph fr ec' (sc_strms c2) l' h' s2' c1' (ds ++ dq) HS Hsl SQ Od HB (eq_trans Sid S1id) KF1); try assumption;
+             rewrite ?CLs; cbn [resolve]; rewrite ?Hmp.
+           ++ right. left. exact DI1.
+           ++ intro Hne. exfalso. apply Hne, EC0.
+           ++ left. apply allowed_table. exact Hmp.
+           ++ apply outs_on_nil, Fd.
+           ++ rewrite Q1, <- Rcv, <- Sst, CC, Wr, S1wr. right. reflexivity.
+           ++ exact Q2.
+           ++ rewrite highest_quiet by exact Fd. apply HIgen; [reflexivity | discriminate | exact ProcIdle].
+        -- apply sstate_eqb_neq in CC. destruct St2 as [St2|St2]; [|congruence].
+           assert (Fd : filter noisy (ds ++ dq) = []) by (rewrite filter_app, Qq, Fn; reflexivity).
+           assert (CLs : classify (sf_sid fr) (rev (filter noisy (ds ++ dq))) = RS.Process) by (rewrite Fd; apply classify_nil).
+           destruct (spec_process_quiet s (abs_frame fr) (ds ++ dq) W Od Fd) as (Q1 & Q2).
+           change (RS.f_sid (abs_frame fr)) with (sf_sid fr) in Q1.
+           apply (G_keep' c s ph fr ec' (sc_strms c2) l' h' s2' c1' (ds ++ dq) HS Hsl SQ Od HB (eq_trans Sid S1id) KF1 DI1); try assumption;
+             rewrite ?CLs; cbn [resolve]; rewrite ?Hmp.
+           ++ unfold strm_ok. rewrite St2, Wr, S1wr, Sresp, Srun, Sfin, S1fin. repeat split; auto.
+           ++ rewrite Sfin, S1fin, SXfin. discriminate.
+           ++ intro Hne. exfalso. apply Hne, EC0.
+           ++ left. apply allowed_table. exact Hmp.
+           ++ apply outs_on_nil, Fd.
+           ++ rewrite Q1, <- Rcv, <- Sst, St2. reflexivity.
+           ++ exact Q2.
+           ++ rewrite highest_quiet by exact Fd. apply HIgen; [reflexivity | discriminate | exact ProcIdle].
+           ++ rewrite Hph by (rewrite <- Sst; congruence). unfold phase_of. rewrite Sst, Sfin. reflexivity.
+           ++ intros sid rq H. exfalso. exact (Nd1 sid rq H).
+    + (* nothing to send *)
+      assert (CLs : classify (sf_sid fr) (rev (filter noisy dq)) = RS.Process) by (rewrite Qq; apply classify_nil).
+      destruct (spec_process_quiet s (abs_frame fr) dq W Od Qq) as (Q1 & Q2).
+      change (RS.f_sid (abs_frame fr)) with (sf_sid fr) in Q1.
+      destruct (sstate_eqb (st_state s1) SClosed) eqn:CC.
+      * (* RST_STREAM: the stream is closed *)
+        apply sstate_eqb_eq in CC. pose proof (RgC CC) as KR.
+        assert (EC0 : ec' = 0) by (destruct SQ as [(_ & _ & ->)|(_ & K & _)]; [rewrite KR; reflexivity | congruence]).
+        apply (G_close' c s ph fr ec' (sc_strms c2) l' h' s1 cA dq HS Hsl SQ Od HB S1id KF); try assumption;
+          rewrite ?CLs; cbn [resolve]; rewrite ?Hmp.
+        -- right. left. exact Hdi.
+        -- intro Hne. exfalso. apply Hne, EC0.
+        -- left. apply allowed_table. exact Hmp.
+        -- apply outs_on_nil, Qq.
+        -- rewrite Q1, <- Rcv, CC, S1wr. right. reflexivity.
+        -- exact Q2.
+        -- rewrite highest_quiet by exact Qq. apply HIgen; [reflexivity | discriminate | exact ProcIdle].
+      * apply sstate_eqb_neq in CC.
+        assert (St1 : st_state s1 = SOpen \/ st_state s1 = SHalfClosed) by (destruct Rg as [X|[X|[X|X]]]; [congruence | auto | auto | congruence]).
+        apply (G_keep' c s ph fr ec' (sc_strms c2) l' h' s1 cA dq HS Hsl SQ Od HB S1id KF Hdi); try assumption;
+          rewrite ?CLs; cbn [resolve]; rewrite ?Hmp.
+        -- unfold strm_ok. rewrite S1wr, S1resp, S1run, S1fin. split; [exact St1|]. split; [reflexivity|]. split; [|split].
+           ++ intro H. destruct (Hresp H) as [A B]. split; [|exact B]. destruct (RgH A) as [X|X]; [exact X | congruence].
+           ++ intros A B. destruct (st_responded sX) eqn:R; [reflexivity|]. exfalso.
+              rewrite A, S1fin, B, S1resp in C1. discriminate.
+           ++ exact S1send.
+        -- rewrite S1fin. exact Hf1.
+        -- rewrite S1fin. exact Hf2.
+        -- left. apply allowed_table. exact Hmp.
+        -- apply outs_on_nil, Qq.
+        -- rewrite Q1, <- Rcv. destruct St1 as [X|X]; rewrite X; reflexivity.
+        -- exact Q2.
+        -- rewrite highest_quiet by exact Qq. apply HIgen; [reflexivity | discriminate | exact ProcIdle].
+        -- apply Hph, CC.
+        -- intros sid rq H. exfalso. exact (Qnd sid rq H).
+Qed.
+
+(* ---------- afterFrame on a frame that handleFrame answered with a stream error ---------- *)
+
+Lemma sent_st_closed w o : sent_st (RS.Closed w) o = RS.Closed w.
+Proof. destruct o; reflexivity. Qed.
+
+Lemma st_of_fold_closed l : forall s1 id w, wf s1 -> RS.st_of s1 id = RS.Closed w -> RS.st_of (fold_left RS.spec_sent l s1) id = RS.Closed w.
+Proof.
+  induction l as [|o l IH]; intros s1 id w W H; cbn [fold_left]; [exact H|].
+  apply IH; [apply wf_spec_sent, W|]. rewrite st_of_spec_sent by exact W.
+  destruct (match sent_sid o with Some j => j =? id | None => false end); [rewrite H; apply sent_st_closed | exact H].
+Qed.
+
+Lemma has_goaway_none d : (forall o, In o d -> is_goaway o = None) -> existsb is_exit d = false ->
+  has_goaway (flat_map sent_of (rev (filter noisy d))) = false.
+Proof.
+  intros Hg He. unfold has_goaway. apply not_true_is_false. intro H. apply existsb_exists in H. destruct H as (so & Hin & Hso).
+  apply in_flat_map in Hin. destruct Hin as (o & Ho & Hs). apply in_rev in Ho. apply filter_In in Ho. destruct Ho as [Ho _].
+  pose proof (Hg o Ho) as G. assert (X : is_exit o = false).
+  { destruct (is_exit o) eqn:Q; [|reflexivity]. exfalso. assert (existsb is_exit d = true) by (apply existsb_exists; eauto). congruence. }
+  unfold sent_of, is_goaway, is_exit in *. destruct (strip_late o) as [? es ?|? es ?| | | | | | | | | |]; try destruct es; cbn in Hs;
+    try contradiction; destruct Hs as [<-|[]]; try discriminate.
+Qed.
+
+Lemma classify_rst_first sid code l : (sid =? 0) = false -> (forall o, In o l -> is_goaway o = None) -> existsb is_exit l = false ->
+  classify sid (ORst sid code :: l) = RS.StreamErr code.
+Proof.
+  intros Z Hg He. unfold classify.
+  replace (first_some is_goaway (ORst sid code :: l)) with (@None N).
+  2:{ cbn [first_some is_goaway strip_late]. symmetry. rewrite <- (app_nil_r l). rewrite first_goaway_skip by exact Hg. reflexivity. }
+  cbn [existsb is_exit strip_late orb]. rewrite He, Z. cbn [first_some is_rst strip_late]. rewrite N.eqb_refl. reflexivity.
+Qed.
+
+Lemma after_reset c s ph fr ec' c2 l' h' cA s3 code :
+  Sim c s ph -> sc_sl_done c = false -> seq_ok c fr ec' -> N.odd (sf_sid fr) = true ->
+  base c fr (sc_strms c2) l' h' -> kctx c ec' l' h' c2 -> hf_eff c2 cA ->
+  st_id s3 = sf_sid fr ->
+  (RS.st_of s (sf_sid fr) = RS.Open \/ RS.st_of s (sf_sid fr) = RS.HalfClosedRemote \/
+   (RS.st_of s (sf_sid fr) = RS.Idle /\ sf_kind fr = KHeaders)) ->
+  (RS.st_of s (sf_sid fr) = RS.Idle -> h' = sf_sid fr /\ sc_highestID c < sf_sid fr) -> (RS.st_of s (sf_sid fr) <> RS.Idle -> h' = sc_highestID c) ->
+  send_ok s3 ->
+  (st_headersFinished s3 = false \/ sc_discardID cA = sc_discardID c) ->
+  (ec' <> 0 -> st_headersFinished s3 = false) ->
+  RS.allowed s (RS.Frame (abs_frame fr)) (RS.StreamErr code) = true ->
+  sf_kind fr <> KRst ->
+  feed c (IIn (RFrame fr)) =
+    fst (after_frame cfg (write_reset cA (sf_sid fr) code) (set_state (set_state (set_weReset s3) SClosed) SClosed) fr (sc_closing c)) ->
+  G c s ph (RFrame fr) (feed c (IIn (RFrame fr))).
+Proof.
+  intros HS Hsl SQ Od HB KC HE Hid Hx Hh1 Hh2 Hsend Hdi Hf2 Ha NR E.
+  pose proof (S_wf _ _ _ _ HS) as W. pose proof (S_aux _ _ _ _ HS) as [AT AH].
+  pose proof (Zn_of_odd _ Od) as Zn.
+  destruct (kfin_of c ec' l' h' c2 cA Hsl KC HE) as (dq & KF & Qq & Qnd).
+  pose proof (quiet_no_goaway dq Qq) as Qng.
+  assert (WrA : wr hstate cA).
+  { destruct KF as (_ & _ & _ & _ & _ & _ & K7 & _ & K9 & _). split; [exact K9 | rewrite K7; apply (A_wl _ _ AT)]. }
+  set (cR := write_reset cA (sf_sid fr) code) in *.
+  assert (KFR : kfin c ec' l' h' (sc_strms c2) cR (ORst (sf_sid fr) code :: dq)).
+  { unfold cR, write_reset. rewrite (emit_wr hstate cA _ WrA). apply kfin_note, KF. }
+  assert (WrR : wr hstate cR) by (unfold cR, write_reset; apply wr_emit, WrA).
+  set (s5 := set_state (set_state (set_weReset s3) SClosed) SClosed) in *.
+  assert (HS5 : handle_state fr s5 = s5).
+  { unfold handle_state. apply fkind_eqb_neq in NR. rewrite NR. reflexivity. }
+  unfold after_frame in E. rewrite HS5 in E. cbv zeta in E.
+  replace (sstate_eqb (st_state s5) SHalfClosed) with false in E by reflexivity. cbn [andb] in E.
+  (* the specification: the stream is closed by our RST_STREAM whatever follows *)
+  assert (Spec : forall d', (forall o, In o d' -> is_goaway o = None) -> existsb is_exit d' = false ->
+     let d := d' ++ ORst (sf_sid fr) code :: dq in
+     classify (sf_sid fr) (rev (filter noisy d)) = RS.StreamErr code /\
+     RS.st_of (after_outs (RS.spec_next s (RS.Frame (abs_frame fr)) (RS.StreamErr code)) d) (sf_sid fr) = RS.Closed RS.WeRst /\
+     RS.goaway (after_outs (RS.spec_next s (RS.Frame (abs_frame fr)) (RS.StreamErr code)) d) = RS.goaway s /\
+     RS.highest (after_outs (RS.spec_next s (RS.Frame (abs_frame fr)) (RS.StreamErr code)) d) = h').
+  { intros d' Hg He d.
+    assert (Fd : rev (filter noisy d) = ORst (sf_sid fr) code :: rev (filter noisy d')).
+    { unfold d. rewrite filter_app. cbn [filter noisy strip_late]. rewrite Qq, rev_app_distr. reflexivity. }
+    assert (W1 : wf (RS.spec_next s (RS.Frame (abs_frame fr)) (RS.StreamErr code))) by (apply wf_spec_next, W).
+    assert (S1 : RS.st_of (RS.spec_next s (RS.Frame (abs_frame fr)) (RS.StreamErr code)) (sf_sid fr) = RS.Closed RS.WeRst).
+    { rewrite (st_of_spec_next_same s (abs_frame fr)) by exact Od. cbn [conn_err next_st]. change (RS.f_sid (abs_frame fr)) with (sf_sid fr).
+      destruct Hx as [X|[X|[X KH]]]; rewrite X; unfold RS.reset, abs_frame; cbn [RS.f_kind]; rewrite ?KH; try reflexivity;
+        destruct (abs_kind (sf_kind fr)); reflexivity. }
+    split; [|split; [|split]].
+    - rewrite Fd. apply classify_rst_first; [exact Zn | |].
+      + intros o H. apply in_rev in H. apply filter_In in H. apply Hg, H.
+      + rewrite existsb_rev, exit_noisy. exact He.
+    - unfold after_outs. apply st_of_fold_closed; assumption.
+    - unfold after_outs. rewrite goaway_fold_sent, goaway_spec_next. cbn [conn_err]. rewrite orb_false_r.
+      rewrite has_goaway_none; [apply orb_false_r | |].
+      + intros o H. unfold d in H. apply in_app_or in H. destruct H as [H|[<-|H]]; [apply Hg, H | reflexivity | apply Qng, H].
+      + unfold d. rewrite existsb_app, He. cbn [existsb is_exit strip_late orb].
+        clear -Qq. induction dq as [|o t IH]; [reflexivity|]. cbn [filter] in Qq. cbn [existsb]. destruct (noisy o) eqn:N; [discriminate|].
+        rewrite (IH Qq), orb_false_r. unfold noisy, is_exit in *. destruct (strip_late o); try discriminate; reflexivity.
+    - unfold after_outs. rewrite highest_fold_sent by exact W1. apply highest_next_known; try assumption; try reflexivity; try discriminate.
+      + change (RS.f_sid (abs_frame fr)) with (sf_sid fr). intro X. destruct (Hh1 X) as [A B]. split; [|split; [exact A | rewrite (S_hi _ _ _ _ HS); exact B]].
+        destruct Hx as [Y|[Y|[Y KH]]]; try congruence. cbn [next_st]. unfold RS.reset, abs_frame. cbn [RS.f_kind]. rewrite KH. discriminate.
+      + change (RS.f_sid (abs_frame fr)) with (sf_sid fr). intro X. rewrite (S_hi _ _ _ _ HS). apply Hh2, X. }
+  assert (Kd2 : forall sF, st_weReset sF = true -> st_headersFinished sF = st_headersFinished s3 ->
+                ec' <> 0 -> sc_discardID cR = sf_sid fr \/ (st_weReset sF = true /\ st_headersFinished sF = false)).
+  { intros sF A B Hne. right. split; [exact A | rewrite B; apply Hf2, Hne]. }
+  destruct (st_responded s5 && negb (st_handlerRunning s5) && has_more_to_send s5)%bool eqn:C2.
+  - (* response data was queued: it still goes out *)
+    apply andb_true_iff in C2. destruct C2 as [_ C2m].
+    destruct (send_data cR s5) as [[c1' s2'] fin] eqn:SD.
+    destruct (send_data_spec hstate cR s5 c1' s2' fin WrR C2m Hsend SD) as (ds & SDd & FD & Sid & Sst & Sfin & Sresp & Srun & Sorig & Sout).
+    destruct (data_or_rst_facts ds FD) as (Dnd & Dng & Dne).
+    pose proof (kfin_sd c ec' l' h' _ cR _ c1' ds KFR SDd) as KF1.
+    destruct (Spec ds Dng Dne) as (CLs & Q1 & Q2 & Q3).
+    set (sF := if fin then set_state s2' SClosed else s2') in *.
+    assert (StF : st_state sF = SClosed) by (unfold sF; destruct fin; [reflexivity | rewrite Sst; reflexivity]).
+    assert (WrF : st_weReset sF = true).
+    { unfold sF. destruct fin; cbn.
+      - destruct Sout as [(ch & _ & X)|(_ & X)]; rewrite X; reflexivity.
+      - destruct Sout as (_ & X & _). rewrite X. reflexivity. }
+    assert (FinF : st_headersFinished sF = st_headersFinished s3) by (unfold sF; destruct fin; cbn; rewrite Sfin; reflexivity).
+    assert (IdF : st_id sF = sf_sid fr) by (unfold sF; destruct fin; cbn; rewrite Sid; exact Hid).
+    replace (sstate_eqb (st_state sF) SClosed) with true in E by (rewrite StF; reflexivity).
+    apply (G_close' c s ph fr ec' (sc_strms c2) l' h' sF c1' (ds ++ ORst (sf_sid fr) code :: dq) HS Hsl SQ Od HB IdF KF1); try assumption;
+      rewrite ?CLs; cbn [resolve]; try exact Q2; try exact Q3.
+    + destruct Hdi as [X|X]; [left; split; [exact WrF | rewrite FinF; exact X]|].
+      right. left. unfold sd in SDd. rewrite SDd. sc_cbn. unfold cR, write_reset. sc_rw. exact X.
+    + intro Hne. destruct (Kd2 sF WrF FinF Hne) as [X|X]; [|right; exact X]. left. unfold sd in SDd. rewrite SDd. sc_cbn. exact X.
+    + intros o H. apply in_app_or in H. destruct H as [H|[<-|H]]; [apply Dng, H | reflexivity | apply Qng, H].
+    + left. exact Ha.
+    + apply outs_on_of. intros o Ho so Hso. rewrite filter_app in Ho. apply in_app_or in Ho. destruct Ho as [Ho|Ho].
+      * apply filter_In in Ho. destruct Ho as [Ho _]. rewrite Forall_forall in FD. specialize (FD o Ho).
+        destruct fin.
+        -- destruct Sout as [(ch & Fn & _)|(Fn & _)]; assert (X : In o (filter noisy ds)) by (apply filter_In; split; [exact Ho|];
+             unfold sent_of in Hso; unfold noisy; destruct (strip_late o) as [? es ?|? es ?| | | | | | | | | |]; try destruct es; try contradiction; reflexivity);
+           rewrite Fn in X; destruct X as [<-|[]]; destruct Hso as [<-|[]]; left; cbn; rewrite ?Hid; reflexivity.
+        -- destruct Sout as (Fn & _). assert (X : In o (filter noisy ds)) by (apply filter_In; split; [exact Ho|];
+             unfold sent_of in Hso; unfold noisy; destruct (strip_late o) as [? es ?|? es ?| | | | | | | | | |]; try destruct es; try contradiction; reflexivity).
+           rewrite Fn in X. destruct X.
+      * cbn [filter noisy strip_late] in Ho. rewrite Qq in Ho. destruct Ho as [<-|[]]. destruct Hso as [<-|[]]. left. reflexivity.
+    + rewrite Q1, WrF. reflexivity.
+    + intros sid rq H. apply in_app_or in H. destruct H as [H|[H|H]]; [exact (Dnd sid rq H) | discriminate | exact (Qnd sid rq H)].
+  - (* nothing more *)
+    destruct (Spec [] ltac:(intros o []) eq_refl) as (CLs & Q1 & Q2 & Q3). cbn [app] in CLs, Q1, Q2, Q3.
+    replace (sstate_eqb (st_state s5) SClosed) with true in E by reflexivity.
+    apply (G_close' c s ph fr ec' (sc_strms c2) l' h' s5 cR (ORst (sf_sid fr) code :: dq) HS Hsl SQ Od HB Hid KFR); try assumption;
+      rewrite ?CLs; cbn [resolve]; try exact Q2; try exact Q3.
+    + destruct Hdi as [X|X]; [left; split; [reflexivity | exact X]|]. right. left. unfold cR, write_reset. sc_rw. exact X.
+    + intro Hne. apply (Kd2 s5 eq_refl eq_refl Hne).
+    + intros o [<-|H]; [reflexivity | apply Qng, H].
+    + left. exact Ha.
+    + apply outs_on_of. intros o Ho so Hso. cbn [filter noisy strip_late] in Ho. rewrite Qq in Ho. destruct Ho as [<-|[]]. destruct Hso as [<-|[]]. left. reflexivity.
+    + rewrite Q1. reflexivity.
+    + intros sid rq [H|H]; [discriminate | exact (Qnd sid rq H)].
 Qed.
 
 End Known.
